@@ -168,6 +168,7 @@ let handle (line : string) : string =
     let sub = List.filteri (fun i _ -> i >= a && i < b) st.bytes in
     let u = hex_of_str (mapping_uuid sub) in
     "u=" ^ u ^ ";again=" ^ u ^ ";parent_stable=1"
+  | "ZI" :: _ -> "SKIPPED"   (* implementation-only sink run on a very large mapping: the property's own clauses are evaluated on the implementation's answer *)
   | "Z" :: mx :: script ->
     let mx = n_of_dec (String.sub mx 4 (String.length mx - 4)) in
     let parse_resp t =
